@@ -389,6 +389,8 @@ Definition unrle (l : list (nat * nat)) : list nat := flat_map (fun bn => repeat
 Record ecase := mkec {
   e_global : Z; e_route : Z; e_verbose : bool;
   e_hold : Z; e_k : nat;
+  e_cancel : bool;              (* the CLIENT goes away while the handler is parked (then what the chain wrote is observed
+                                   in front of the chain, the client cannot tell) *)
   e_acts : list action;
   eo_resp : response;           (* what the http client received *)
   eo_trace : list outcome;
@@ -398,11 +400,14 @@ Record ecase := mkec {
   e_ref : option (response * list Z)   (* what a plain net/http server delivered for RecoverHandler(the bare handler) *)
 }.
 Definition e_deadline (c : ecase) : Z := effective_timeout (e_global c) (e_route c).
-Definition e_overrun (c : ecase) : bool := (0 <? e_hold c) && (0 <? e_deadline c) && (e_deadline c <? e_hold c).
+Definition e_overrun (c : ecase) : bool :=
+  (0 <? e_hold c) && (0 <? e_deadline c) && ((e_deadline c <? e_hold c) || e_cancel c).
+(* what ends the wait: the client's cancel comes before any deadline in the cancel cases *)
+Definition e_cause (c : ecase) : cause := if e_cancel c then CCancel else CTimeout.
 (* the same request as a case of the in-package kind: a client that saw a response saw exactly one commit *)
 Definition e_to_t (c : ecase) : tcase :=
   mktc true (if e_deadline c =? 0 then BZero else BNone) 0 (-1) [] (e_acts c)
-       (if e_overrun c then FCut (e_k c) CTimeout else FNone)
+       (if e_overrun c then FCut (e_k c) (e_cause c) else FNone)
        [RWriteHeader (r_status (eo_resp c)) (r_headers (eo_resp c)); RWrite (r_body (eo_resp c))]
        (eo_resp c) (eo_trace c) false.
 (* was the handler (still alive and) parked when the deadline came?  only then can the answer come early *)
@@ -519,14 +524,28 @@ Definition spec_ok_g (c : gcase) : bool :=
   | FBoth cs => is_handler_response t || timeout_ok cs
   end.
 
+(* ------------------------------------------------------------------ a breaker installed through the public plumbing *)
+(* b_total requests whose handler answers 500, one after the other, through BreakerHandler installed with
+   Server.Use / WithMiddleware(ToMiddleware(..)): observed how many ran the handler (and got its 500), how many were
+   cut off (503, handler not run), how many ended otherwise. *)
+Record bcase := mkbc { b_total : nat; b_failed : nat; b_rejected : nat; b_other : nat }.
+(* the breaker's own arithmetic is C01's subject; here: every request is accounted for, and the first ones are let through
+   (googlebreaker protection: nothing is rejected before more than 5 requests are on record) *)
+Definition model_ok_b (c : bcase) : bool :=
+  Nat.eqb (b_failed c + b_rejected c) (b_total c) && Nat.eqb (b_other c) 0 && Nat.leb (Nat.min 6 (b_total c)) (b_failed c).
+(* one installed middleware = one breaker: a route that only fails is cut off at some point (60 failures in a row leave a
+   stateful breaker open with probability > 1 - 1e-20); a breaker rebuilt per request never rejects *)
+Definition spec_ok_b (c : bcase) : bool :=
+  Nat.eqb (b_other c) 0 && (Nat.ltb (b_total c) 40 || Nat.leb 1 (b_rejected c)).
+
 (* ------------------------------------------------------------------ the case type vcheck evaluates *)
 Inductive case := CaseT (c : tcase) | CaseC (c : ccase) | CaseR (c : rcase) | CaseM (c : mcase) | CaseRM (c : rmcase)
-                | CaseE (c : ecase) | CaseS (c : scase) | CaseG (c : gcase).
+                | CaseE (c : ecase) | CaseS (c : scase) | CaseG (c : gcase) | CaseB (c : bcase).
 Definition model_ok (c : case) : bool :=
   match c with CaseT t => model_ok_t t | CaseC k => model_ok_c k | CaseR r => model_ok_r r
                | CaseM m => model_ok_m m | CaseRM m => model_ok_rm m | CaseE e => model_ok_e e | CaseS x => model_ok_s x
-               | CaseG g => model_ok_g g end.
+               | CaseG g => model_ok_g g | CaseB b => model_ok_b b end.
 Definition spec_ok (c : case) : bool :=
   match c with CaseT t => spec_ok_t t | CaseC k => spec_ok_c k | CaseR r => spec_ok_r r
                | CaseM m => spec_ok_m m | CaseRM m => spec_ok_rm m | CaseE e => spec_ok_e e | CaseS x => spec_ok_s x
-               | CaseG g => spec_ok_g g end.
+               | CaseG g => spec_ok_g g | CaseB b => spec_ok_b b end.
